@@ -182,6 +182,35 @@ theorem C20_reduce_rdp_sublist (simplified : List Nat) (ms out : List Message)
     out.Sublist ms ∧ out.filter (fun m => !isRecord m) = ms.filter (fun m => !isRecord m) :=
   reduceByRdp_ok h
 
+/-! ## combiner -/
+
+/-- **Combining keeps every message of every input in creation-time order.** Whenever `Combine` succeeds, the body of
+the result (everything before the sport / split_summary / session / activity messages it appends) is — up to the VALUES
+of accumulable fields, which are continued across the file boundaries — exactly the messages of the inputs: the first
+file (creation-time order) without its session, activity, sport and split_summary messages, then every later file
+without these and without file_id / file_creator; nothing else is dropped, added or reordered. In particular every
+record of every input is there, in order. -/
+theorem C20_combine_order (fits : List (List Message)) (body : List Message) (tr : List Trailer)
+    (h : combine fits = .ok body tr) : body.map blankAcc = (bodyInputs fits).flatten.map blankAcc :=
+  combine_body_blank fits body tr h
+
+/-- **Creation-time order**: the files are taken in a permutation of the given order that is sorted by the
+time_created of their first message, and files with equal creation time keep their given order (stability) — for any
+number of files. -/
+theorem C20_combine_sort (fs : List (List Message)) :
+    (sortByCreation fs).Perm fs ∧ ByCreation (sortByCreation fs) ∧
+    ∀ k, (sortByCreation fs).filter (fun x => timeCreated x == k) = fs.filter (fun x => timeCreated x == k) :=
+  ⟨sortByCreation_perm fs, sortByCreation_sorted fs, fun k => sortByCreation_stable k fs⟩
+
+/-- the full statement about accumulated quantities: the body is exactly `expectedBody` — every accumulable value of a
+later file is its input value plus the last values of the same quantity in the earlier files (closed form,
+`FitModel/ActivitySpec.lean`). Evaluated on the implementation by the property predicate of family `activity` and tied
+to the model by the correspondence; not yet proved as a theorem about the model's accumulator (what is missing: the
+invariant "the entry of a key holds Σ of the last values of the earlier files" through `accMesgs`). -/
+def C20_combine_accumulate_full : Prop :=
+  ∀ (fits : List (List Message)) (body : List Message) (tr : List Trailer),
+    combine fits = .ok body tr → expectedBody fits = some body
+
 /-! ## non-vacuity -/
 
 def demo : List Message := [mkRec 10 1 2 0, mkRec 20 3 4 100, mkRec 30 5 6 100, mkRec 40 7 8 250]
